@@ -1,6 +1,10 @@
 package cfg
 
-import "verif.local/h/subj"
+import (
+	"sort"
+
+	"verif.local/h/subj"
+)
 
 // SimResult is what the reference LR(1) machine (conflicts resolved by C05's
 // rule, errors recovered by C07's rule) does on a token sequence.
@@ -89,7 +93,17 @@ func (l *LR1) Simulate(toks []int, failAt int) SimResult {
 			discarded := append([]subj.Val{}, attrs[rs+1:]...)
 			states, attrs, inErr = states[:rs+1], attrs[:rs+1], inErr[:rs+1]
 			es, _ := l.CanShiftError(states[rs])
-			ev := subj.Val{Kind: "err", Err: &subj.ErrVal{ErrTok: i, Symbols: discarded}}
+			row := func(st int) []string {
+				var names []string
+				for tt := range c.Terms {
+					if _, has, _ := l.Resolved(st, tt); has {
+						names = append(names, c.Terms[tt])
+					}
+				}
+				sort.Strings(names)
+				return names
+			}
+			ev := subj.Val{Kind: "err", Err: &subj.ErrVal{ErrTok: i, Symbols: discarded, ExpectedAlt: [][]string{row(top), row(states[rs])}}}
 			states, attrs, inErr = append(states, es), append(attrs, ev), append(inErr, true)
 			r.ErrAttrs++
 			errAt := i
